@@ -164,7 +164,8 @@ def _isinstance(ip, x, cls):
         if n == "builtins.tuple":
             return isinstance(x, tuple)
         if n == "builtins.type":
-            return isinstance(x, RepoClass)
+            h = ip.models.get("isinstance:builtins.type")
+            return h(ip, x) if h else isinstance(x, RepoClass)
         h = ip.models.get("isinstance:" + n)
         if h:
             return h(ip, x)
@@ -173,6 +174,11 @@ def _isinstance(ip, x, cls):
 
 @model("builtins.hasattr")
 def _hasattr(ip, x, name):
+    if is_z3(x):
+        if x.sort() != U:
+            return False  # python scalars have no array attributes
+        if ip.opaque_attr.get(name) or ip.models.get("zattr:" + name):
+            return True
     try:
         ip.getattr(x, name)
         return True
@@ -229,7 +235,10 @@ def _all(ip, xs):
 def _sum(ip, xs, start=0):
     acc = start
     for x in ip.iterate(xs):
-        acc = ip.binop("Add", acc, x)
+        if isinstance(acc, int) and not isinstance(acc, bool) and acc == 0 and is_z3(x) and x.sort() == U:
+            acc = x  # 0 + array = array
+        else:
+            acc = ip.binop("Add", acc, x)
     return acc
 
 
@@ -388,6 +397,48 @@ def _gcd(ip, *xs):
     return g
 
 
+def deep_copy(ip, x, memo=None):
+    """A-PY: copy.deepcopy duplicates the object graph preserving sharing; functions, classes, strings, numbers and
+    symbolic terms are shared (immutable)"""
+    memo = {} if memo is None else memo
+    if id(x) in memo:
+        return memo[id(x)]
+    if isinstance(x, Obj):
+        o = Obj(x.cls, {}, tag=x.tag)
+        memo[id(x)] = o
+        for k, v in x.f.items():
+            o.f[k] = deep_copy(ip, v, memo)
+        if hasattr(x, "frozen"):
+            o.frozen = x.frozen
+        return o
+    if isinstance(x, list):
+        l = type(x)() if type(x) is not list else []
+        memo[id(x)] = l
+        for v in x:
+            list.append(l, deep_copy(ip, v, memo))
+        return l
+    if isinstance(x, tuple):
+        return tuple(deep_copy(ip, v, memo) for v in x)
+    if isinstance(x, dict):
+        d = {}
+        memo[id(x)] = d
+        for k, v in x.items():
+            d[k] = deep_copy(ip, v, memo)
+        return d
+    if isinstance(x, PyFn) and getattr(x, "weak_target", None) is not None:
+        # weakref to an object inside the copied graph points to the copy
+        tgt = deep_copy(ip, x.weak_target, memo)
+        f = PyFn(lambda ip2: None if getattr(tgt, "dead", False) else tgt, "weakref")
+        f.weak_target = tgt
+        return f
+    return x
+
+
+@model("copy.deepcopy")
+def _deepcopy(ip, x):
+    return deep_copy(ip, x)
+
+
 @model("copy.copy")
 def _copy(ip, x):
     if isinstance(x, Obj):
@@ -523,3 +574,17 @@ def _newtype(ip, name, tp):
 @model("typing.TypeVar")
 def _typevar(ip, *a, **k):
     return None
+
+
+@model("types.MappingProxyType")
+def _mapping_proxy(ip, d):
+    """read-only view: reads go to the underlying dict"""
+    return d
+
+
+@model("weakref.ref")
+def _weakref(ip, o):
+    """S4: weakref.ref(m)() is m while the model is alive"""
+    f = PyFn(lambda ip2: None if getattr(o, "dead", False) else o, "weakref")
+    f.weak_target = o
+    return f
